@@ -498,6 +498,10 @@ class Facts:
         pairs = {}
         for g in gone:
             parent, base = g.rsplit("::", 1)
+            exact = [n for n in new if same(n, ref[g]) and n.rsplit("::", 1)[-1] == base]
+            if len(exact) == 1 and exact[0] not in pairs:
+                pairs[exact[0]] = g             # same name, type and value somewhere else: moved
+                continue
             cands = [n for n in new if same(n, ref[g]) and (n.rsplit("::", 1)[0] == parent or n.rsplit("::", 1)[-1] == base)]
             back = [g2 for g2 in gone if ref[g2] == ref[g] and (g2.rsplit("::", 1)[0] == parent or g2.rsplit("::", 1)[-1] == base)]
             if len(cands) == 1 and len(back) == 1 and cands[0] not in pairs:
